@@ -36,7 +36,7 @@ pub struct World {
     pub uid: u8,         // 0 as the simulator (root), 1 nobody (65534:65534)
     pub malloc_mode: u8, // allocator behaviour: 0 default, 1 tcache off (freed chunks are not handed straight back), 2 freed/fresh memory filled with a pattern, 3 both
     pub flock: bool,     // an exclusive flock(2) on the script is held by the simulator during the run
-    pub rlimit: u8,      // resource limits far above what any explored script needs: 0 none, 1 RLIMIT_AS 192 MiB, 2 RLIMIT_AS 1 GiB, 3 RLIMIT_CPU 60 s, 4 RLIMIT_NOFILE 260, 5 RLIMIT_FSIZE 64 MiB, 6 RLIMIT_DATA 128 MiB
+    pub rlimit: u8,      // resource limits far above what any explored script needs: 0 none, 1 RLIMIT_AS 192 MiB, 2 RLIMIT_AS 1 GiB, 3 RLIMIT_CPU 60 s, 4 RLIMIT_NOFILE 260, 5 RLIMIT_FSIZE 64 MiB, 6 RLIMIT_DATA 128 MiB, 7 CPU affinity narrowed to one CPU
     // directed dimensions: environment variables / relative files the program was seen asking for
     pub extra_env: Vec<(String, String)>,
     pub extra_files: Vec<(String, String)>,
@@ -109,7 +109,7 @@ impl World {
             "fds" => self.fds = 1 + rng.below(2) as u8,
             "script_mode" => self.script_mode = 1 + rng.below(4) as u8,
             "uid" => self.uid = 1,
-            "rlimit" => self.rlimit = 1 + rng.below(6) as u8,
+            "rlimit" => self.rlimit = 1 + rng.below(7) as u8,
             "malloc_mode" => self.malloc_mode = 1 + rng.below(3) as u8,
             "flock" => self.flock = true,
             "stdout" => self.stdout = [1, 2, 3, 4, 5, 8, 9][rng.usize_below(7)],
@@ -213,7 +213,8 @@ impl World {
             "locale" | "stdin" | "script_mode" => 4,
             "cwd_name" => 5,
             "stdout" | "stderr" => 7,
-            "env_bytes" | "rlimit" => 6,
+            "env_bytes" => 6,
+            "rlimit" => 7,
             "spelling" => 11,
             _ => 0,
         }
